@@ -8,6 +8,7 @@ coherence oracle of suite E at every block boundary.
 -/
 import Brc20.Model.Node
 import Brc20.Proofs.Node
+import Brc20.Proofs.ReachProps
 
 namespace Brc20
 open Node
@@ -51,5 +52,174 @@ theorem C06.gas_running_sum (l : Lbi) (runs : List (List (String × String) × B
     (hfit : l.gasUsed + (runs.map (fun r => if r.2.1 then r.2.2.2.1 else 0)).sum ≤ U64MAX) :
     (bumpLbi l runs).gasUsed = l.gasUsed + (runs.map (fun r => if r.2.1 then r.2.2.2.1 else 0)).sum := by
   exact bumpLbi_gasUsed l runs hfit
+
+/-! ## Heights on every reachable state
+
+`Node.Reach n` (Proofs/NodeRun.lean): `n` is the empty node or the result of any call with any arguments and any
+recorded events on a reachable node, as long as the model answered `ok` or `err`. -/
+
+/-- **Heights are contiguous on every reachable node.**
+  1. the rows of the block-number -> hash table are gap-free: every number up to the newest row has a row;
+  2. every number below the next height has a hash row, and no hash row lies above the next height;
+  3. at a block boundary the hash rows are exactly the numbers below the next height, and both heights are read off
+     the newest row;
+  4. the next height is the current height plus one, except on an empty database (both are 0);
+  5. the tip block (the in-memory height and hash) has its hash row - with that hash - and both block rows. -/
+theorem C06.heights_contiguous_reachable (n : Node) (hr : Reach n) :
+    (∀ e, (n.b .numberToHash).lastKey = some e → ∀ k, k ≤ e → (n.b .numberToHash).get k ≠ none) ∧
+    ((∀ k, k < n.nextHeight → (n.b .numberToHash).get k ≠ none) ∧
+     (∀ k, (n.b .numberToHash).get k ≠ none → k ≤ n.nextHeight)) ∧
+    (n.lbi.waiting = 0 →
+      (∀ k, (n.b .numberToHash).get k ≠ none ↔ k < n.nextHeight) ∧
+      n.latestHeight = ((n.b .numberToHash).lastKey).getD 0 ∧
+      n.nextHeight = (match (n.b .numberToHash).lastKey with | some k => k + 1 | none => 0)) ∧
+    (n.nextHeight = n.latestHeight + 1 ∨
+      (n.nextHeight = 0 ∧ n.latestHeight = 0 ∧ ∀ k, (n.b .numberToHash).get k = none)) ∧
+    (∀ h x, n.latest = some (h, x) →
+      n.blockHashAt h = some x ∧ (n.b .block).get h ≠ none ∧ (n.b .rawBlock).get h ≠ none) := by
+  obtain ⟨G, hG⟩ := hr.inv
+  have hh := hr.hinv
+  have hbelow : ∀ k, k < n.nextHeight → (n.b .numberToHash).get k ≠ none := by
+    intro k hk
+    have h1 := nextHeight_le_nextOf hG.core.latest_row
+    cases hl : (n.b .numberToHash).lastKey with
+    | none => rw [hl] at h1; simp only [BlockDb.nextOf] at h1; omega
+    | some e =>
+      rw [hl] at h1
+      simp only [BlockDb.nextOf] at h1
+      exact hG.core.contig e hl k (by omega)
+  refine ⟨hG.core.contig, ⟨hbelow, hh.rows_next⟩, ?_, ?_, hh.tip⟩
+  · intro hw
+    obtain ⟨e1, e2⟩ := hh.heights_bdry hw
+    refine ⟨fun k => ⟨hh.rows_bdry hw k, hbelow k⟩, e1, ?_⟩
+    rw [e2]
+    cases (n.b .numberToHash).lastKey <;> rfl
+  · rw [nextHeight_eq, latestHeight_eq]
+    cases n.latest with
+    | some p => exact Or.inl rfl
+    | none =>
+      cases hl : (n.b .numberToHash).lastKey with
+      | some e => exact Or.inl rfl
+      | none => exact Or.inr ⟨rfl, rfl, BlockDb.get_eq_none_of_lastKey_none hl⟩
+
+/-- **The three block tables on every reachable node**: every row of the block table and of the raw-block table has
+a hash row of the same number - except, while a block is under construction, possibly a row of the number being
+built. At a block boundary every row of the three tables lies below the next height and has a hash row. (Superseded by `C06.block_tables_move_together_reachable`, which gives equality of the three row sets,
+mid-block included.) -/
+theorem C06.block_rows_have_hash_row_reachable (n : Node) (hr : Reach n) :
+    (∀ i k, (n.b i).get k ≠ none →
+      (n.b .numberToHash).get k ≠ none ∨ (k = n.nextHeight ∧ n.lbi.waiting ≠ 0)) ∧
+    (n.lbi.waiting = 0 → ∀ i k, (n.b i).get k ≠ none → k < n.nextHeight ∧ (n.b .numberToHash).get k ≠ none) := by
+  have hs := hr.sinv
+  refine ⟨hs.sub, ?_⟩
+  intro hw i k hk
+  rcases hs.sub i k hk with h1 | h1
+  · exact ⟨hr.hinv.rows_bdry hw k h1, h1⟩
+  · exact absurd hw h1.2
+
+/-- **The three block tables move together, on every reachable node.** For the block table, the raw-block table and
+the block-number -> hash table alike:
+  1. there is a row for exactly the numbers below the height being built - `0 … latestHeight` on a non-empty
+     database, gap-free, the same numbers in the three tables;
+  2. this holds mid-block as well as at a block boundary: a call that adds transactions writes no block-table row, so
+     the block under construction has no row in any of the three tables until its finalise writes all three;
+  3. the next height is the current height plus one, except on an empty database (both are 0, no rows);
+  4. the persistent columns (what a `clear` / restart keeps) hold rows for exactly the numbers below the height the
+     restart continues at - again the same numbers in the three tables.
+(The model refuses recorded block-table writes in a call that adds transactions and the finalise of a block writes the
+rows of that block only; before that tightening this was false in the model, see the example below.) -/
+theorem C06.block_tables_move_together_reachable (n : Node) (hr : Reach n) :
+    (∀ i k, (n.b i).get k ≠ none ↔ k < n.nextHeight) ∧
+    (n.nextHeight = n.latestHeight + 1 ∨
+      (n.nextHeight = 0 ∧ n.latestHeight = 0 ∧ ∀ i k, (n.b i).get k = none)) ∧
+    (∀ i k, (n.b i).clear.get k ≠ none ↔ k < ((n.clear).1).nextHeight) := by
+  obtain ⟨h1, h2⟩ := hr.block_rows
+  refine ⟨h1, ?_, ?_⟩
+  · rcases (C06.heights_contiguous_reachable n hr).2.2.2.1 with h | ⟨h3, h4, _⟩
+    · exact Or.inl h
+    · refine Or.inr ⟨h3, h4, ?_⟩
+      intro i k
+      cases hg : (n.b i).get k with
+      | none => rfl
+      | some v =>
+        have := (h1 i k).mp (by rw [hg]; simp)
+        omega
+  · have e : ((n.clear).1).nextHeight = n.durNext := by rw [nextHeight_eq]; rfl
+    rw [e]; exact h2
+
+/-- the same at a block boundary, in terms of the current height: on a non-empty database the rows of each of the
+three tables are exactly the numbers `0 … latestHeight` -/
+theorem C06.block_tables_rows_upto_height (n : Node) (hr : Reach n) (hne : n.nextHeight ≠ 0) :
+    ∀ i k, (n.b i).get k ≠ none ↔ k ≤ n.latestHeight := by
+  obtain ⟨h1, h2, _⟩ := C06.block_tables_move_together_reachable n hr
+  intro i k
+  rw [h1 i k]
+  rcases h2 with h | ⟨h, _⟩
+  · omega
+  · exact absurd h hne
+
+namespace C06.Example
+open Node.Example
+
+/-- the first transaction of block 0 on the empty node (explicit block hash `abcd`); its recorded writes contain a
+`block_number_to_hash` row for the block under construction -/
+def evTx0 : List Ev :=
+  [ .x "tx" [("number", "0"), ("ts", "100"), ("prevrandao", "abcd"), ("basefee", "0"), ("gasprice", "0"),
+             ("value", "0"), ("coinbase", addr0), ("txid", "ab")] true true 21000 0,
+    .s "account" 0 "aa" (some acct0),
+    .s "block_number_to_hash" 0 "0000000000000000" (some "zz") ]
+
+/-- **The former counterexample is now rejected by the model.** `addTxs` used to accept the recorded
+`block_number_to_hash` row (the engine's `add_tx_to_block` issues none), after which a finalise at height 1 and a
+commit gave a reachable node whose hash table had rows 0 and 1 while the block and raw-block tables had row 1 only.
+The call is now refused (`tx-wrote-block-table`), the node is left alone, and the same call without the block-table
+write is accepted. -/
+example : (({} : Node).addTxs 100 "abcd" 0 (some "ab") evTx0 (some 1)).2 = .reject "tx-wrote-block-table" ∧
+    (({} : Node).addTxs 100 "abcd" 0 (some "ab") evTx0 (some 1)).1.nextHeight = 0 ∧
+    (({} : Node).addTxs 100 "abcd" 0 (some "ab") (evTx0.take 2) (some 1)).2 = .ok := by decide
+
+/-- a finalise whose recorded writes contain a versioned-table write that `finalise_block` never issues (an `account`
+row) is rejected too, and so is a hash-index row keyed by another hash -/
+example : (final.1.finaliseOne 400 zeroHash 0
+      [ .s "block_number_to_block" 3 "0000000000000003" (some "b3"),
+        .s "block_number_to_raw_block" 3 "0000000000000003" (some "r3"),
+        .s "account" 3 "aa" (some acct0),
+        .s "block_number_to_hash" 3 "0000000000000003" (some (generatedHash 3)),
+        .s "block_hash_to_number" 3 (generatedHash 3) (some (hexN 16 3)) ]).2 = .reject "fin-wrote" ∧
+    (final.1.finaliseOne 400 zeroHash 0
+      [ .s "block_number_to_block" 3 "0000000000000003" (some "b3"),
+        .s "block_number_to_raw_block" 3 "0000000000000003" (some "r3"),
+        .s "block_number_to_hash" 3 "0000000000000003" (some (generatedHash 3)),
+        .s "block_hash_to_number" 3 (generatedHash 3) (some (hexN 16 3)),
+        .s "block_hash_to_number" 3 (generatedHash 7) (some (hexN 16 3)) ]).2 = .reject "fin-wrote" ∧
+    (final.1.finaliseOne 400 zeroHash 0
+      [ .s "block_number_to_block" 3 "0000000000000003" (some "b3"),
+        .s "block_number_to_raw_block" 3 "0000000000000003" (some "r3"),
+        .s "account_and_nonce_to_tx_hash" 3 "aa0000000000000001" none,
+        .s "block_number_to_hash" 3 "0000000000000003" (some (generatedHash 3)),
+        .s "block_hash_to_number" 3 (generatedHash 3) (some (hexN 16 3)) ]).2 = .ok := by decide
+
+/-- Non-vacuity of `C06.block_tables_move_together_reachable` on the node of `Node.Example` (height 2, committed) and
+mid-block on the node of its first three calls (block 1 under construction): rows 0, 1, 2 resp. row 0 in each of the
+three tables. -/
+example : (∀ i k, (final.1.b i).get k ≠ none ↔ k < 3) ∧
+    (∀ i k, ((runOps (ops.take 3) ({}, Ghost.init)).1.b i).get k ≠ none ↔ k < 1) ∧
+    (runOps (ops.take 3) ({}, Ghost.init)).1.lbi.waiting = 1 := by
+  have hn : final.1.nextHeight = 3 := by decide
+  have hm : (runOps (ops.take 3) ({}, Ghost.init)).1.nextHeight = 1 := by decide
+  have hr : ReachG (runOps (ops.take 3) ({}, Ghost.init)).1 (runOps (ops.take 3) ({}, Ghost.init)).2 :=
+    reachG_runOps (ops.take 3) ReachG.init (by decide) (by decide)
+  rw [← hn, ← hm]
+  exact ⟨(C06.block_tables_move_together_reachable final.1 final_reach.reach).1,
+    (C06.block_tables_move_together_reachable _ hr.reach).1, by decide⟩
+
+/-- Non-vacuity of `C06.heights_contiguous_reachable` on the node of `Node.Example` (height 2, committed). -/
+example : (∀ k, (final.1.b .numberToHash).get k ≠ none ↔ k < 3) ∧ final.1.latestHeight = 2 := by
+  obtain ⟨_, _, h3, _, _⟩ := C06.heights_contiguous_reachable final.1 final_reach.reach
+  have hn : final.1.nextHeight = 3 := by decide
+  rw [← hn]
+  exact ⟨(h3 (by decide)).1, by decide⟩
+
+end C06.Example
 
 end Brc20
